@@ -264,7 +264,11 @@ impl Number {
             Number::Fixnum(num) => num.unsigned_abs().into(),
             Number::Float(num) => num.abs().into(),
             Number::BigInt(num) => num.abs().into(),
-            Number::Rational(num) => num.abs().into(),
+            // -i32::MIN is not an i32: fall back to a float as the other rational operations do
+            Number::Rational(num) => match num.numer().checked_abs() {
+                Some(numer) => Rational32::new_raw(numer, *num.denom()).into(),
+                None => (*num.numer() as f64 / *num.denom() as f64).abs().into(),
+            },
         }
     }
 
@@ -289,7 +293,11 @@ impl Number {
             Number::Fixnum(_) => self.clone(),
             Number::Float(num) => num.floor().into(),
             Number::BigInt(_) => self.clone(),
-            Number::Rational(num) => num.floor().into(),
+            // Ratio<i32>::floor overflows near the i32 boundary: round in 64 bits
+            Number::Rational(num) => Rational64::new_raw(*num.numer() as i64, *num.denom() as i64)
+                .floor()
+                .to_integer()
+                .into(),
         }
     }
 
@@ -298,7 +306,10 @@ impl Number {
             Number::Fixnum(_) => self.clone(),
             Number::Float(num) => num.ceil().into(),
             Number::BigInt(_) => self.clone(),
-            Number::Rational(num) => num.ceil().into(),
+            Number::Rational(num) => Rational64::new_raw(*num.numer() as i64, *num.denom() as i64)
+                .ceil()
+                .to_integer()
+                .into(),
         }
     }
 
@@ -320,8 +331,12 @@ impl Number {
             Number::Float(num) => num.powf(exp as f64).into(),
             Number::BigInt(lhs) => lhs.pow(exp).into(),
             Number::Rational(num) => {
-                if exp.to_i32().is_some() {
-                    num.pow(exp as i32).into()
+                let exact = match (num.numer().checked_pow(exp), num.denom().checked_pow(exp)) {
+                    (Some(numer), Some(denom)) => Some(Rational32::new_raw(numer, denom)),
+                    _ => None,
+                };
+                if let Some(exact) = exact {
+                    exact.into()
                 } else {
                     num.to_f64().unwrap_or(f64::NAN).powf(exp as f64).into()
                 }
